@@ -164,7 +164,17 @@ class KindInterp:
             env[x.arg] = TOP
         ret = BOT
         is_gen = False
-        stmts = [n for n in walk_local(func)]
+        stmts = sorted(
+            (n for n in walk_local(func)),
+            key=lambda n: (getattr(n, "lineno", 0), getattr(n, "col_offset", 0)),
+        )
+        # locals that are assigned somewhere start at BOT (values only grow);
+        # names never bound in the function (globals, builtins) are TOP.
+        assigned = set()
+        for n in stmts:
+            if isinstance(n, ast.Name) and isinstance(n.ctx, (ast.Store, ast.Del)):
+                assigned.add(n.id)
+        env["__assigned__"] = assigned  # type: ignore[assignment]
         # fixpoint over the flow-insensitive environment (reports only in last pass)
         for it in range(8):
             before = dict(env)
@@ -190,6 +200,8 @@ class KindInterp:
                 for i, t in enumerate(target.elts):
                     if isinstance(val, Tup) and i < len(val.items) and not isinstance(t, ast.Starred):
                         bind(t, val.items[i])
+                    elif val == BOT:
+                        bind(t.value if isinstance(t, ast.Starred) else t, BOT)
                     else:
                         bind(t.value if isinstance(t, ast.Starred) else t, TOP)
             # attribute / subscript stores are not tracked
@@ -205,7 +217,7 @@ class KindInterp:
                 bind(n.target, combine([ev(n.target), ev(n.value)]) if isinstance(n.op, ast.Add) else TOP)
             elif isinstance(n, (ast.For, ast.comprehension)):
                 it = ev(n.iter)
-                bind(n.target, it.elem if isinstance(it, Seq) else TOP)
+                bind(n.target, it.elem if isinstance(it, Seq) else (BOT if it == BOT else TOP))
             elif isinstance(n, ast.Return) and n.value is not None:
                 ret = join(ret, ev(n.value))
             elif isinstance(n, (ast.Yield,)):
@@ -236,7 +248,9 @@ class KindInterp:
         if isinstance(e, ast.JoinedStr):
             return combine([self._eval(v.value, env, func) for v in e.values if isinstance(v, ast.FormattedValue)])
         if isinstance(e, ast.Name):
-            return env.get(e.id, TOP if e.id not in self.functions else TOP)
+            if e.id in env:
+                return env[e.id]
+            return BOT if e.id in env.get("__assigned__", ()) else TOP
         if isinstance(e, ast.Tuple):
             return Tup([self._eval(x, env, func) for x in e.elts])
         if isinstance(e, (ast.List, ast.Set)):
